@@ -53,6 +53,21 @@ func (c11) Gen(r *rand.Rand, tier string, run int) *core.Case {
 	c.Params["scenario"] = block % 4
 	c.Params["tape_seed"] = int(br.Uint64() >> 33)
 	c.Params["block"] = block
+	if block%10 == 7 {
+		// a block in which the server stops reading: the client's sends fill
+		// the connection and block in the middle of a message; the loss comes
+		// while they are blocked (closed by the application, reset or closed
+		// by the peer). Every run of the block has its own schedule.
+		delete(c.Params, "app_close")
+		c.Params["scenario"] = block / 10 % 4
+		c.Params["stall"] = 1 + j%3 // how the connection is lost: 1 local Close, 2 reset by the peer, 3 closed by the peer
+		c.Params["tape_seed"] = int(br.Uint64()>>34) + j
+		c.Params["fault_op"] = -3
+		c.Net.Capacity = []int{16, 64, 300}[j/3%3]
+		c.Batch = fmt.Sprintf("scenario-%c-stalled-server", 'a'+block/10%4)
+		c.Ops = []core.Op{{Kind: "scenario", X: int64(block / 10 % 4)}}
+		return c
+	}
 	c.Batch = fmt.Sprintf("scenario-%c", 'a'+block%4)
 	if c.Params["app_close"] == 1 {
 		c.Params["fault_op"] = -2
@@ -87,6 +102,7 @@ type c11state struct {
 	connectFail error
 	callsDone   chan struct{}
 	appClose    int64 // event sequence number at which the application closed the endpoint
+	lossKind    string
 }
 
 func (c11) Run(c *core.Case, env *core.Env) {
@@ -149,7 +165,35 @@ func (c11) Run(c *core.Case, env *core.Env) {
 		st.mu.Lock()
 		st.regProxy = zzsim.Seq()
 		st.mu.Unlock()
-		c11body(c, env, st, w, p)
+		if mode := c.P("stall", 0); mode > 0 {
+			conn := env.NW.Conns()[0]
+			done := make(chan struct{})
+			go func() {
+				defer close(done)
+				c11body(c, env, st, w, p, func() { conn.Peer().StallReads(true); env.Probe("server-stalled") })
+			}()
+			env.S.Quiesce() // the sends are blocked in the middle of their messages
+			if conn.Unread() == 0 && conn.Peer().Unread() > 0 {
+				env.Probe("send-blocked-mid-message")
+			}
+			seq := zzsim.Seq()
+			st.mu.Lock()
+			st.appClose = seq
+			st.lossKind = []string{"", "app-close-while-send-blocked", "peer-reset-while-send-blocked", "peer-close-while-send-blocked"}[mode]
+			st.mu.Unlock()
+			zzsim.Event("the connection is lost while sends are blocked: mode %d", mode)
+			switch mode {
+			case 1:
+				cl.Channel().EndPoint().Close()
+			case 2:
+				conn.Peer().Abort()
+			default:
+				conn.Peer().Close()
+			}
+			<-done
+		} else {
+			c11body(c, env, st, w, p, func() {})
+		}
 	}
 	close(callsDone)
 	// let everything settle, then a late call on the same connection
@@ -168,6 +212,9 @@ func (c11) Run(c *core.Case, env *core.Env) {
 
 func c11call(env *core.Env, p probe.ProbeProxy, kind string, a, i int) {
 	tok := probe.Token{Client: int32(a), Seq: int32(i), Nonce: int64(a*100 + i), Text: "t"}
+	if env.C.P("stall", 0) > 0 {
+		tok.Text = strings.Repeat("t", 400)
+	}
 	h := env.Invoke(a, kind, tokOf(tok).Key())
 	var ret probe.Token
 	var err error
@@ -179,11 +226,13 @@ func c11call(env *core.Env, p probe.ProbeProxy, kind string, a, i int) {
 	env.Return(h, tokOf(ret).String(), err)
 }
 
-func c11body(c *core.Case, env *core.Env, st *c11state, w *World, p probe.ProbeProxy) {
+func c11body(c *core.Case, env *core.Env, st *c11state, w *World, p probe.ProbeProxy, stall func()) {
 	switch c.P("scenario", 0) {
 	case 0, 3: // one call (scenario d is the same workload: the early-reply schedule is the tape's business)
+		stall()
 		c11call(env, p, "echo", 1, 0)
 	case 1: // three concurrent calls, one of them slow
+		stall()
 		var wg sync.WaitGroup
 		for a := 1; a <= 3; a++ {
 			wg.Add(1)
@@ -218,6 +267,7 @@ func c11body(c *core.Case, env *core.Env, st *c11state, w *World, p probe.ProbeP
 			st.subsClosed++
 			st.mu.Unlock()
 		}()
+		stall()
 		var wg sync.WaitGroup
 		wg.Add(1)
 		go func() {
@@ -255,6 +305,9 @@ func (c11) Check(c *core.Case, env *core.Env, res zzsim.Result, v *core.Verdict)
 	if appClose != 0 {
 		fired++
 		firedKind = "app-close"
+		if st.lossKind != "" {
+			firedKind = st.lossKind
+		}
 		if firstLoss == 0 || appClose < firstLoss {
 			firstLoss = appClose
 		}
@@ -262,6 +315,9 @@ func (c11) Check(c *core.Case, env *core.Env, res zzsim.Result, v *core.Verdict)
 	where := "no fault"
 	if appClose != 0 {
 		where = fmt.Sprintf("the application closed the client's endpoint at %d", appClose)
+		if st.lossKind != "" {
+			where = fmt.Sprintf("%s at %d (the server had stopped reading)", st.lossKind, appClose)
+		}
 	}
 	if len(c.Plan) > 0 {
 		where = fmt.Sprintf("%s at I/O operation %d of the client connection", c.Plan[0].Kind, c.Plan[0].Op)
